@@ -6,7 +6,7 @@ from .. import q, gf2
 
 TITLE = 'multi-byte IN endpoint word serialisation'
 FLOOR = 24
-DECIDES = ('For USBMultibyteStreamInEndpoint with byte_width 1, 2 and 4 (1..8 and 16 in the thorough tier), on the cone of '
+DECIDES = ('For USBMultibyteStreamInEndpoint with byte_width 1, 2, 3 and 4 (1..8 and 16 in the thorough tier), on the cone of '
            'influence of the inner byte stream (valid/payload/first/last of the USBStreamInEndpoint submodule) and of '
            'stream.ready: the extracted guards, drivers and FSM edges are evaluated exactly (last assignment / last m.next '
            'wins, combinational defaults 0) over every reachable control state (FSM state x control registers) and all 16 '
@@ -463,7 +463,7 @@ def check(ctx, n):
 
 
 def run(ctx):
-    widths = (1, 2, 4)
+    widths = (1, 2, 3, 4)         # 3: a width that is not a power of two (counters that rely on natural wrap-around)
     if ctx.tier == 'thorough':
         widths = (1, 2, 3, 4, 5, 6, 7, 8, 16)
     for n in widths:
